@@ -105,6 +105,8 @@ def reg_step(entry: str, state, step, i: int, init):
         return {"ext": content_x(i)}
     if kind == "XB":
         return {"ext": BROKEN}
+    if kind == "XE":
+        return {"ext": ""}          # truncated to zero bytes by someone else: the file EXISTS and its content hashes to sha256("")
     p = pipeline(entry, kind, i, state)
     new = p[1] if p[0] == "ok" else None
     bt = base_text_of(bh, state, init, new)
@@ -128,6 +130,7 @@ def alphabet(entry: str, with_broken: bool):
     steps = [(k, h) for k in kinds for h in HASHES] + [("X", "-")]
     if with_broken:
         steps.append(("XB", "-"))
+        steps.append(("XE", "-"))
     return steps
 
 
@@ -272,7 +275,7 @@ def hist_worker(item):
             if not counted:
                 out["n"], out["dist"] = n0, d0
             hist.append(st)
-            if r is None and st[0] not in ("X", "XB"):
+            if r is None and st[0] not in ("X", "XB", "XE"):
                 ok = False
                 break
             state = read_text_state(sb.target)
@@ -283,7 +286,7 @@ def hist_worker(item):
                 if depth >= max_len:
                     return
                 for st in steps:
-                    if LEAF_REPEATS and max_len >= 5 and depth == max_len - 1 and st[0] not in ("X", "XB"):
+                    if LEAF_REPEATS and max_len >= 5 and depth == max_len - 1 and st[0] not in ("X", "XB", "XE"):
                         # deepest level of the long plans: every distinct (file state, call) below this worker's prefix is
                         # executed from at most LEAF_REPEATS different histories (all shallower nodes: from every history)
                         kk = (state, st)
@@ -294,7 +297,7 @@ def hist_worker(item):
                     if read_text_state(sb.target) != state:
                         write_state(sb.target, state)
                     r = do_step(state, st, depth, hist)
-                    if r is None and st[0] not in ("X", "XB") and "E_REF" in reg_step(entry, state, st, depth, init).get("codes", []):
+                    if r is None and st[0] not in ("X", "XB", "XE") and "E_REF" in reg_step(entry, state, st, depth, init).get("codes", []):
                         continue
                     ns = read_text_state(sb.target)
                     dfs(ns, depth + 1, hist + [st])
@@ -468,6 +471,14 @@ def pair_oracle(sc, run):
             bad.append(("error-changed", f"writer {i} answered {rr['status']} {rr.get('code')} but replaced the file"))
     if run["tmps"]:
         bad.append(("residue", f"temp files left: {run['tmps']}"))
+    # what is on disk at the end is what the LAST successful install reported: a writer that answers success with hash h has installed
+    # text hashing to h (and nobody else's bytes)
+    if installs and run.get("final") is not None:
+        last = installs[-1]
+        rr = res[last]
+        if rr and rr.get("status") == "success" and rr.get("hash") and C.sha(run["final"]) != rr["hash"]:
+            bad.append(("installed-other-bytes", f"writer {last} replaced the file last and answered success with canonical_hash {rr['hash'][:12]}…, "
+                                                  f"but the file's bytes hash to {C.sha(run['final'])[:12]}… (another writer's text was installed)"))
     return bad
 
 
